@@ -15,6 +15,7 @@ import (
 	"github.com/jech/galene/estimator"
 	"github.com/jech/galene/jitter"
 	"github.com/jech/galene/packetcache"
+	"github.com/jech/galene/stats"
 	"github.com/jech/galene/unbounded"
 )
 
@@ -179,4 +180,18 @@ func (u *VerifUp) RateAccumulate(n int, size uint32) {
 	for i := 0; i < n; i++ {
 		u.T.rate.Accumulate(size)
 	}
+}
+
+// SetSRTime records that a sender report with the given NTP time was sent at
+// the given instant (what sendSR does after writing the report).
+func (d *VerifDown) SetSRTime(jiffies, ntp uint64) { d.T.setSRTime(jiffies, ntp) }
+
+// RTT returns the smoothed round-trip time, in jiffies.
+func (d *VerifDown) RTT() uint64 { return d.T.getRTT() }
+
+// ClientStats runs the real webClient.GetStats (what the statistics endpoint
+// serialises) on a client that holds just this down connection.
+func (d *VerifDown) ClientStats() *stats.Client {
+	c := &webClient{id: "verif", down: map[string]*rtpDownConnection{d.Conn.id: d.Conn}}
+	return c.GetStats()
 }
